@@ -4,7 +4,7 @@
    flight, any enabled one may advance; update_document compares document versions and keeps base_dict).
    `lastword w u` is what the client shows for u (the most recent publishDiagnostics, by provenance),
    `expected w u` what the property demands, `pubval w u` what doc_state would publish now. *)
-Require Import Base Server ServerProofs ServerSeq ServerConc ServerClose ServerVer.
+Require Import Base Server ServerProofs ServerSeq ServerConc ServerClose ServerVer C09Batch C09BatchProofs.
 
 (* ================================================================================================
    What does NOT hold (each with a concrete schedule on the faithful model; replayed on the real
@@ -321,3 +321,127 @@ Example C09_close_wins_nonvacuous :
     lookup (UFile 0 0) (s_docs (y_world y)) = None /\ lastword (y_world y) (UFile 0 0) = PEmpty /\
     exists y', run cw_suffix y = Some y' /\ quiescentb y' = true /\ length (s_log (y_world y')) = 3.
 Proof. exact close_wins_applies. Qed.
+
+(* ================================================================================================
+   Mixed batches (phase 3): didOpen / didChange / didSave / didClose for ANY documents, protocol-conforming or
+   not, up to four handlers in flight, completing in ANY order, at await granularity (the unrestricted
+   dispatcher `run`), from any up-to-date server (Inv).  Model/C09Batch.v: `trace cs y` = the critical sections
+   (update_document under the doc_state lock incl. use_ident_dict; the body of did_close) in the order the
+   schedule executes them, with their arguments; `acrit` = what one of them does to a document as the client
+   sees it (language, text, ignore list, version); `afold` composes them.
+   ================================================================================================ *)
+
+(* SERIALISATION: when everything has been handled, doc_state holds for every document exactly the
+   composition of the critical sections in the order they were executed (as an up-to-date entry: current
+   dictionaries, identifiers of the installed text, current settings), and the last word of every document is
+   what doc_state says.  So whether the last word is right depends on the ORDER OF THE CRITICAL SECTIONS only *)
+Theorem C09_batch_serialises :
+  forall h w0 cs y,
+  Inv w0 -> forallb batch_op h = true -> run cs (init h w0) = Some y -> quiescent y ->
+  forall u, lookup u (s_docs (y_world y)) =
+              option_map (good_entry (y_world y) u) (afold u (trace cs (init h w0)) (astate0 w0 u)) /\
+            lastword (y_world y) u = pubval (y_world y) u.
+Proof. exact batch_serialises. Qed.
+Check C09_batch_serialises :
+  forall h w0 cs y,
+  Inv w0 -> forallb batch_op h = true -> run cs (init h w0) = Some y -> quiescent y ->
+  forall u, lookup u (s_docs (y_world y)) =
+              option_map (good_entry (y_world y) u) (afold u (trace cs (init h w0)) (astate0 w0 u)) /\
+            lastword (y_world y) u = pubval (y_world y) u.
+Print Assumptions C09_batch_serialises.
+
+(* the trace is complete and sound: every didOpen / didChange / didClose of the history has its critical section
+   in it, and every critical section in it is that of a message of the history (a didSave's carries the text it
+   read from the file and no version) *)
+Theorem C09_batch_all_executed :
+  forall h w0 cs y,
+  Inv w0 -> forallb batch_op h = true -> run cs (init h w0) = Some y -> quiescent y ->
+  (forall o, In o h -> crit_op o = true -> In (event_of o) (trace cs (init h w0))) /\
+  (forall e, In e (trace cs (init h w0)) -> from_op h e).
+Proof. exact batch_all_executed. Qed.
+Check C09_batch_all_executed :
+  forall h w0 cs y,
+  Inv w0 -> forallb batch_op h = true -> run cs (init h w0) = Some y -> quiescent y ->
+  (forall o, In o h -> crit_op o = true -> In (event_of o) (trace cs (init h w0))) /\
+  (forall e, In e (trace cs (init h w0)) -> from_op h e).
+Print Assumptions C09_batch_all_executed.
+
+(* EXACT SHAPE 1 (both directions): a document whose last word ought to be [] (closed at the end, or in a
+   language without parser) has a WRONG last word IFF the last of its didOpen (language with a parser) /
+   didClose critical sections is a didOpen's (close_overtaken) - i.e. a didClose overtook the didOpen it follows.
+   didChange and didSave of the document, in any number and order, never matter.  This is exactly the class
+   `reorder` of the known finding F17a-rest for closed documents (C09_reorder_close_refuted is the instance
+   [Open; Close], critical sections in the order [Close; Open]) *)
+Theorem C09_batch_closed_exact :
+  forall h w0 cs y u,
+  Inv w0 -> forallb batch_op h = true -> run cs (init h w0) = Some y -> quiescent y ->
+  expected (y_world y) u = PEmpty ->
+  (lastword (y_world y) u = expected (y_world y) u <-> close_overtaken w0 u (trace cs (init h w0)) = false).
+Proof. exact batch_closed_exact. Qed.
+Check C09_batch_closed_exact :
+  forall h w0 cs y u,
+  Inv w0 -> forallb batch_op h = true -> run cs (init h w0) = Some y -> quiescent y ->
+  expected (y_world y) u = PEmpty ->
+  (lastword (y_world y) u = expected (y_world y) u <-> close_overtaken w0 u (trace cs (init h w0)) = false).
+Print Assumptions C09_batch_closed_exact.
+
+(* EXACT SHAPE 2 (both directions): a document that is open at the end (language with a parser), whose
+   messages in the history are didOpen / didChange only - no didSave, no didClose - and carry its newest
+   version with its newest text and only with it (sess_ok, init_okb: decidable conditions on the history and
+   the initial client state; satisfied by every client that increases the version with every change), has a
+   WRONG last word IFF no critical section carrying the newest version is executed while the document has an
+   entry (open_overtaken).  For a document opened in the batch, where all critical sections are executed
+   (C09_batch_all_executed), that is: the newest didChange executed its critical section BEFORE the didOpen's.
+   For a document that is open from the start the shape is empty - this generalises C09_versioned_changes
+   to batches in which other documents are opened, saved and closed meanwhile.
+   Outside: a didSave of the document in the batch (its file text carries no version:
+   C09_reorder_save_refuted; C09_batch_serialises still says what doc_state ends as) and commands /
+   configuration changes in flight (C09_dictionary_race_refuted) *)
+Theorem C09_batch_open_exact :
+  forall h w0 cs y u cd,
+  Inv w0 -> forallb batch_op h = true -> run cs (init h w0) = Some y -> quiescent y ->
+  lookup u (w_open (y_world y)) = Some cd -> kind (cd_lang cd) <> KNone ->
+  sess_ok u cd h = true -> init_okb w0 u cd = true ->
+  ((lastword (y_world y) u = expected (y_world y) u /\ pubval (y_world y) u = expected (y_world y) u)
+   <-> open_overtaken w0 u (cd_ver cd) (trace cs (init h w0)) = false).
+Proof. exact batch_open_exact. Qed.
+Check C09_batch_open_exact :
+  forall h w0 cs y u cd,
+  Inv w0 -> forallb batch_op h = true -> run cs (init h w0) = Some y -> quiescent y ->
+  lookup u (w_open (y_world y)) = Some cd -> kind (cd_lang cd) <> KNone ->
+  sess_ok u cd h = true -> init_okb w0 u cd = true ->
+  ((lastword (y_world y) u = expected (y_world y) u /\ pubval (y_world y) u = expected (y_world y) u)
+   <-> open_overtaken w0 u (cd_ver cd) (trace cs (init h w0)) = false).
+Print Assumptions C09_batch_open_exact.
+
+(* a mixed batch (two didOpen, one of a source file whose handler holds the mutex inside use_ident_dict; two
+   didChange completing newest first; a didSave overtaken by the didClose of its document): all hypotheses
+   hold, neither shape occurs, both last words are right *)
+Example C09_batch_nonvacuous :
+  forallb batch_op mix_history = true /\
+  exists y cd, run mix_schedule (init mix_history (world0 0)) = Some y /\ quiescentb y = true /\
+    lookup uA (w_open (y_world y)) = Some cd /\ kind (cd_lang cd) = KCode /\
+    sess_ok uA cd mix_history = true /\ init_okb (world0 0) uA cd = true /\
+    open_overtaken (world0 0) uA (cd_ver cd) (trace mix_schedule (init mix_history (world0 0))) = false /\
+    expected (y_world y) uB = PEmpty /\
+    close_overtaken (world0 0) uB (trace mix_schedule (init mix_history (world0 0))) = false /\
+    trace mix_schedule (init mix_history (world0 0)) =
+      [EUpd uA (Some LCode) (mktext 0 7) (Some 1); EUpd uB (Some LPlain) (tx 1) (Some 1); EUpd uA None (mktext 3 8) (Some 3);
+       EClose uB; EUpd uB None (tx 1) None; EUpd uA None (mktext 2 8) (Some 2)] /\
+    freshb (y_world y) uA = true /\ freshb (y_world y) uB = true.
+Proof. exact mix_batch_applies. Qed.
+
+(* the two refuting schedules above (C09_reorder_refuted, C09_reorder_close_refuted) have exactly the two shapes *)
+Example C09_batch_overtaken_examples :
+  (forallb batch_op open_change_history = true /\
+   exists y cd, run open_change_schedule (init open_change_history (world0 0)) = Some y /\ quiescentb y = true /\
+     lookup uA (w_open (y_world y)) = Some cd /\ kind (cd_lang cd) = KPlain /\
+     sess_ok uA cd open_change_history = true /\ init_okb (world0 0) uA cd = true /\
+     open_overtaken (world0 0) uA (cd_ver cd) (trace open_change_schedule (init open_change_history (world0 0))) = true /\
+     freshb (y_world y) uA = false) /\
+  (forallb batch_op close_open_history = true /\
+   exists y, run close_open_schedule (init close_open_history (world0 0)) = Some y /\ quiescentb y = true /\
+     expected (y_world y) uA = PEmpty /\
+     close_overtaken (world0 0) uA (trace close_open_schedule (init close_open_history (world0 0))) = true /\
+     freshb (y_world y) uA = false).
+Proof. exact overtaken_witnesses. Qed.
